@@ -1027,7 +1027,11 @@ def dataframe_strategy(
         return strategy.filter(check_fn)
 
     def make_row_strategy(col, checks):
-        strategy = None
+        strategy = (
+            field_element_strategy(col.dtype, checks=col.checks)
+            if col.checks
+            else None
+        )
         for check in checks:
             if check.strategy is not None:
                 strategy = check.strategy(
